@@ -198,6 +198,34 @@ func checkC11(p *core.Program, r *core.Report) {
 					}
 				}
 			}
+			// ... or handing it to a helper of the package that invokes Visit on that parameter
+			for _, cs := range core.Calls(visitFn, false) {
+				c := cs.Common()
+				g := c.StaticCallee()
+				if c.IsInvoke() || g == nil || len(g.Blocks) == 0 || core.FuncPkgPath(g) != core.FuncPkgPath(visitFn) {
+					continue
+				}
+				for i, a := range c.Args {
+					if i >= len(g.Params) {
+						continue
+					}
+					descends := false
+					for _, gcs := range core.Calls(g, false) {
+						gc := gcs.Common()
+						if gc.IsInvoke() && gc.Method.Name() == "Visit" && core.BackSlice(gc.Value, nil)[ssa.Value(g.Params[i])] {
+							descends = true
+						}
+					}
+					if !descends {
+						continue
+					}
+					for w := range core.BackSlice(a, nil) {
+						if fa, ok := w.(*ssa.FieldAddr); ok {
+							visited[core.FieldAddrVar(fa).Name()] = true
+						}
+					}
+				}
+			}
 			missing := []string{}
 			for _, f := range ni.exprFlds {
 				if !visited[f] {
